@@ -90,6 +90,116 @@ def depth3(atoms, stride, offset):
             yield ir.Block([a, s])
 
 
+# ------------------------------------------------------------------ control-structure skeletons
+#
+# The lists above vary the *atoms* under one or two levels of control structure.  Skeletons vary the control
+# structure itself: every nesting of Block / if / if-else / else-only up to a size bound, decorated so that
+# each statement's execution is observable (x = 5 * x + k encodes the executed sequence) and each condition is
+# an independent symbolic input (ia[k] < 0), plus a "flags" family in which leaves set the boolean p to a
+# literal and conditions read it (the written-flag idiom of generated kernels).
+
+
+import functools as _functools
+
+
+@_functools.lru_cache(None)
+def _shapes(n, depth):
+    out = []
+    if n == 1:
+        out.append("A")
+    if depth == 0:
+        return tuple(out)
+
+    def comps(n, k):
+        if k == 1:
+            yield (n,)
+            return
+        for a in range(1, n - k + 2):
+            for r in comps(n - a, k - 1):
+                yield (a,) + r
+
+    for k in (2, 3):
+        for comp in comps(n, k):
+            for parts in itertools.product(*[_shapes(c, depth - 1) for c in comp]):
+                if any(isinstance(p, tuple) and p[0] == "B" for p in parts):
+                    continue  # a block directly inside a block
+                out.append(("B",) + parts)
+    for a in range(1, n):
+        for s1 in _shapes(a, depth - 1):
+            for s2 in _shapes(n - a, depth - 1):
+                out.append(("I", s1, s2))
+    for s1 in _shapes(n, depth - 1):
+        out.append(("I", s1, None))  # if without else
+        out.append(("E", s1))  # empty then-arm
+    return tuple(out)
+
+
+def _nconds(s):
+    if s == "A" or s is None:
+        return 0
+    if s[0] == "B":
+        return sum(_nconds(x) for x in s[1:])
+    if s[0] == "I":
+        return 1 + _nconds(s[1]) + _nconds(s[2])
+    return 1 + _nconds(s[1])
+
+
+def _build(shape, leaves, conds):
+    """leaves / conds: iterators of IR atoms / conditions consumed in program order."""
+    if shape == "A":
+        return next(leaves)
+    if shape[0] == "B":
+        return ir.Block([_build(x, leaves, conds) for x in shape[1:]])
+    c = next(conds)
+    if shape[0] == "I":
+        a = _build(shape[1], leaves, conds)
+        b = ir.Block([]) if shape[2] is None else _build(shape[2], leaves, conds)
+        return ir.Branch(c, a, b)
+    return ir.Branch(c, ir.Block([]), _build(shape[1], leaves, conds))
+
+
+def _track(k):
+    return ir.Assignment(X, ir.Add(ir.Multiply(X, ir.IntegerLiteral(5)), ir.IntegerLiteral(k)))
+
+
+def _input_cond(k):
+    return ir.LessThan(ir.ArrayIndex(IA, ir.IntegerLiteral(k % 3)), I0)
+
+
+def skeleton_structures(max_leaves=4, max_conds=3, depth=3):
+    """Every control-structure shape within the bound, tracking leaves, independent input conditions."""
+    for n in range(1, max_leaves + 1):
+        for shape in _shapes(n, depth):
+            c = _nconds(shape)
+            if c == 0 or c > max_conds:
+                continue
+            yield _build(shape, iter([_track(k + 1) for k in range(n)]), iter([_input_cond(k) for k in range(c)]))
+
+
+def skeleton_flags(max_leaves=3, max_conds=2, depth=2):
+    """Shapes of depth <= 2 with every decoration in which a leaf sets p to a literal and a condition reads p."""
+    for n in range(1, max_leaves + 1):
+        for shape in _shapes(n, depth):
+            c = _nconds(shape)
+            if c == 0 or c > max_conds:
+                continue
+            for kinds in itertools.product("tTF", repeat=n):
+                if all(k == "t" for k in kinds):
+                    continue
+                for cks in itertools.product("pi", repeat=c):
+                    if "p" not in cks:
+                        continue
+                    leaves = [_track(k + 1) if kd == "t" else ir.Assignment(P, TRUE if kd == "T" else FALSE)
+                              for k, kd in enumerate(kinds)]
+                    conds = [P if ck == "p" else _input_cond(k) for k, ck in enumerate(cks)]
+                    yield _build(shape, iter(leaves), iter(conds))
+
+
+def skeletons():
+    yield from skeleton_structures()
+    yield from skeleton_flags()
+
+
 INIT_VARS = {"x": "int", "y": "int", "u": "float", "p": "bool"}
 
 
